@@ -34,6 +34,9 @@ type Engine struct {
 	Fset   *token.FileSet
 	Cfg    Config
 	Pool   *SolverPool
+	abortFlag int32
+	Pool2  *SolverPool // fallback for unknown answers (may be nil)
+	Fallbacks int64
 	Intr   map[string]Intrinsic
 	HPkgs  map[string]bool // harness package paths
 	RepoDir string
@@ -153,6 +156,7 @@ func (e *Engine) abort(msg string) {
 		e.Aborted = msg
 	}
 	e.mu.Unlock()
+	atomic.StoreInt32(&e.abortFlag, 1)
 	e.cond.Broadcast()
 }
 
@@ -173,6 +177,21 @@ func (e *Engine) Explore(entry *ssa.Function, initPkgs []*ssa.Package) {
 	th.Status = TRunnable
 	e.pushFrame(st, th, entry, nil, nil, nil)
 	e.push(st)
+	if !e.Cfg.Deadline.IsZero() {
+		stop := make(chan struct{})
+		defer close(stop)
+		go func() {
+			select {
+			case <-stop:
+			case <-time.After(time.Until(e.Cfg.Deadline)):
+				e.abort("deadline exceeded")
+				e.Pool.KillAll()
+				if e.Pool2 != nil {
+					e.Pool2.KillAll()
+				}
+			}
+		}()
+	}
 	var wg sync.WaitGroup
 	jobs := e.Cfg.Jobs
 	if jobs < 1 {
@@ -291,8 +310,7 @@ func (e *Engine) runPath(st *State) []*State {
 		}
 	}()
 	for {
-		if !e.Cfg.Deadline.IsZero() && st.Steps&1023 == 0 && time.Now().After(e.Cfg.Deadline) {
-			e.abort("deadline exceeded")
+		if atomic.LoadInt32(&e.abortFlag) != 0 {
 			return nil
 		}
 		if st.Steps > e.Cfg.MaxSteps {
@@ -322,6 +340,7 @@ func (e *Engine) noteUnsupported(msg string) {
 		e.Aborted = "unsupported: " + msg
 	}
 	e.mu.Unlock()
+	atomic.StoreInt32(&e.abortFlag, 1)
 	e.cond.Broadcast()
 }
 
@@ -406,6 +425,12 @@ func (e *Engine) check(sol *Solver, st *State, extra ...*Term) Result {
 		}
 	}
 	r, _ := sol.Check(as, nil)
+	if r == Unknown && e.Pool2 != nil {
+		s2 := e.Pool2.Get()
+		r, _ = s2.Check(as, nil)
+		e.Pool2.Put(s2)
+		atomic.AddInt64(&e.Fallbacks, 1)
+	}
 	atomic.AddInt64(&e.FeasQ[r], 1)
 	if r == Unsat && len(e.SampleQ) < 2 && !e.inInit {
 		e.mu.Lock()
@@ -789,8 +814,14 @@ func (e *Engine) syntheticOK(fn *ssa.Function) bool {
 	if o := fn.Origin(); o != nil && o.Pkg != nil {
 		return e.execPkg(o.Pkg.Pkg.Path()) || e.allowExec(o)
 	}
-	if fn.Parent() != nil {
-		return true
+	if par := fn.Parent(); par != nil {
+		for par.Parent() != nil {
+			par = par.Parent()
+		}
+		if par.Pkg != nil {
+			return e.execPkg(par.Pkg.Pkg.Path()) || e.allowExec(par)
+		}
+		return e.syntheticOK(par)
 	}
 	// bound method / thunk wrappers: body simply forwards; allow (the forwarded
 	// callee is checked again)
@@ -803,6 +834,9 @@ func (e *Engine) syntheticOK(fn *ssa.Function) bool {
 var allowExecNames = map[string]bool{}
 
 func (e *Engine) allowExec(fn *ssa.Function) bool {
+	for fn.Parent() != nil {
+		fn = fn.Parent()
+	}
 	return allowExecNames[fn.String()] || (fn.Pkg != nil && allowExecPkgs[fn.Pkg.Pkg.Path()])
 }
 
@@ -1230,7 +1264,12 @@ func (e *Engine) Model(sol *Solver, st *State, extra ...*Term) ([]NondetVal, boo
 		}
 	}
 	as := append(append([]*Term{}, st.PC...), extra...)
-	r, vals := sol.Check(as, want)
+	r, vals := sol.CheckA(as, want, true)
+	if r == Unknown && e.Pool2 != nil {
+		s2 := e.Pool2.Get()
+		r, vals = s2.CheckA(as, want, true)
+		e.Pool2.Put(s2)
+	}
 	if r != Sat {
 		return nil, false
 	}
